@@ -68,7 +68,8 @@ class LowerRoll(Contract):
     functions = (f"{LOWER}:ToIndexLambdaMixin.map_roll", "pytato.array:roll",
                  f"{LOWER}:to_index_lambda",
                  "pytato.utils:dim_to_index_lambda_components")
-    properties = ("C02", "C11", "C01")
+    # (C05: lowering is one of the transformations whose outputs it speaks of)
+    properties = ("C02", "C11", "C01", "C05")
 
     def instances(self, tier):
         return [dict(label=f"rank={r},axis={ax}", rank=r, axis=ax)
@@ -218,7 +219,8 @@ class LowerStack(Contract):
     name = "lower.stack"
     functions = (f"{LOWER}:ToIndexLambdaMixin.map_stack", "pytato.array:stack",
                  "pytato.array:Stack.shape")
-    properties = ("C02", "C11", "C01")
+    # (C05: lowering is one of the transformations whose outputs it speaks of)
+    properties = ("C02", "C11", "C01", "C05")
 
     def instances(self, tier):
         out = []
@@ -281,7 +283,8 @@ class LowerConcatenate(Contract):
     name = "lower.concatenate"
     functions = (f"{LOWER}:ToIndexLambdaMixin.map_concatenate",
                  "pytato.array:concatenate", "pytato.array:Concatenate.shape")
-    properties = ("C02", "C11", "C01")
+    # (C05: lowering is one of the transformations whose outputs it speaks of)
+    properties = ("C02", "C11", "C01", "C05")
 
     def instances(self, tier):
         out = []
@@ -357,7 +360,8 @@ class LowerAxisPermutation(Contract):
     name = "lower.axis_permutation"
     functions = (f"{LOWER}:ToIndexLambdaMixin.map_axis_permutation",
                  "pytato.array:transpose", "pytato.array:AxisPermutation.shape")
-    properties = ("C02", "C11", "C01")
+    # (C05: lowering is one of the transformations whose outputs it speaks of)
+    properties = ("C02", "C11", "C01", "C05")
 
     def instances(self, tier):
         out = []
